@@ -57,6 +57,13 @@ both('conds', ['relation p(i32, i32)', 'relation o(Option<i32>, i32)', 'relation
       'res(x, y) <-- foo(x, y) let s = x + y if s > 2, bar(y, z)',
       'q(*v) <-- p(x, y), o(w, y) if let Some(v) = w',
       'res(x, w) <-- foo(x, y), for w in 0..*y, if w > 1'], tags=['conds'])
+both('agg_then_clause', ['relation g(i32, i32, i32)', 'relation k(i32)', 'relation p(i32, i32)', 'relation o(i32, i32)', 'relation o2(i32, usize)'],
+     ['o(x, m) <-- k(x), agg m = max(v) in g(x, _, v), p(m, x)', 'o(x, m) <-- agg m = min(v) in g(_, _, v), k(x), p(m, x)',
+      'o(x, y) <-- k(x), agg m = max(v) in g(x, _, v), p(m, y), p(y, x)', 'o2(x, c) <-- k(x), agg c = count() in g(x, _, _), p(x, y), if *y > 0, let z = c + 1, if z > 1'],
+     tags=['agg', 'agg_then_clause'])
+both('expr_cols', ['relation foo(i32, i32)', 'relation bar(i32, i32)', 'relation both2(i32, i32)'],
+     ['both2(x, y) <-- foo(x, x + 1), bar(y, y + 1)', 'both2(x, y) <-- foo(x, x + 1), bar(y, y + 1), foo(y, y - 1)', 'both2(x, y) <-- foo(x, x), bar(y, y), foo(x, x + 0)'],
+     tags=['repeated'])
 both('fresh_names', ['relation foo(i32, i32)', 'relation bar(i32)', 'relation out(i32, i32)'],
      ['out(x, x_) <-- foo(x, x), bar(x_)', 'out(a, a_1) <-- foo(a, a), foo(a, a), bar(a_1)', 'out(w, expr_replaced_) <-- foo(w, w + 1), bar(expr_replaced_)'], tags=['repeated'])
 both('attached_let', ['relation foo(i32, i32)', 'relation bar(i32, i32)', 'relation res(i32, i32)'],
@@ -426,6 +433,15 @@ both('t_macd_core', MC,
       'b(x, z) <-- k(x), edge(x, m1), edge(m1, y), k(y), edge(y, a2), p(a2, m2), edge(m2, z)',
       'b(x, z) <-- k(x), edge(x, m1), edge(m1, y), k(y), p(y, b2), edge(b2, m2), edge(m2, z)',
       'b(x, z) <-- k(x), edge(x, m1), edge(m1, y), k(y), edge(y, m2), edge(m2, z)'], tags=['twin'])
+SRC3 = 'ascent::ascent_source! { %s:\n      relation category(i32, i32);\n      relation item(i32, i32);\n      relation cheapest(i32, i32);\n      relation total(i32, i32);\n      cheapest(c, m) <-- category(c, shelf), agg m = min(p) in item(c, p);\n      total(c, s) <-- category(c, _), agg s = sum(p) in item(c, p), if s > 0;\n   }'
+for mac in ('ascent', 'ascent_par'):
+    sfx = 'agg' + ('_par' if mac == 'ascent_par' else '')
+    nm = 'src3_' + sfx
+    P('inc_' + sfx, [], [], macro=mac, pre=SRC3 % nm, body=['pub struct P;', 'include_source!(%s);' % nm, 'relation out(i32);', 'out(m) <-- cheapest(_, m);'], tags=['twin'],
+      twin=('inc_pasted_' + sfx, 'C'))
+    P('inc_pasted_' + sfx, [], [], macro=mac, body=['pub struct P;', 'relation category(i32, i32);', 'relation item(i32, i32);', 'relation cheapest(i32, i32);', 'relation total(i32, i32);',
+      'cheapest(c, m) <-- category(c, shelf), agg m = min(p) in item(c, p);', 'total(c, s) <-- category(c, _), agg s = sum(p) in item(c, p), if s > 0;',
+      'relation out(i32);', 'out(m) <-- cheapest(_, m);'], tags=['twin'])
 # ---- S-level: permutations / renamings (both sides are translation-validated; their specs are equal as sets)
 both('t_perm_rules', [E2, 'relation path(i32, i32)'], ['path(x, z) <-- edge(x, y), path(y, z)', 'path(x, y) <-- edge(x, y)'],
      tags=['twin'], twin=('tc_lin', 'L'))
